@@ -3,6 +3,7 @@ package verifsim
 import (
 	"bytes"
 	"context"
+	"encoding/json"
 	"fmt"
 	"time"
 
@@ -46,7 +47,7 @@ var c04ops = []struct {
 }{
 	{"calc", 10}, {"calc-build", 4}, {"persist", 6}, {"restore", 7}, {"lostwrite", 2}, {"reencode", 5},
 	{"validate", 3}, {"digest", 2}, {"verify", 2}, {"extract", 2}, {"clone", 2}, {"corrschema", 1},
-	{"jump", 6}, {"kfold", 2}, {"edit", 5}, {"codec", 3}, {"sign", 2}, {"unsign", 1}, {"reseed", 1},
+	{"jump", 6}, {"kfold", 2}, {"edit", 5}, {"codec", 3}, {"sign", 3}, {"unsign", 1}, {"reseed", 1}, {"hdr", 3},
 }
 
 func planC04(c *Ctx, run int64) *Plan {
@@ -119,6 +120,21 @@ func planC04(c *Ctx, run int64) *Plan {
 			o.J = int64(r.IntN(4)) // zero-read cadence
 		case "sign":
 			o.I = int64(r.IntN(3))
+		case "hdr":
+			// header entries in no particular order (providers and keys deliberately unsorted)
+			o.S = Pick(r, []string{"stamp", "stamp", "link", "tag", "meta", "notes", "stamp-alter"})
+			switch o.S {
+			case "stamp", "stamp-alter":
+				o.S2, o.S3 = Pick(r, []string{"sim-prv-c", "sim-prv-a", "sim-prv-b", "zz-prv", "aa-prv"}), Pick(r, []string{"v1", "v2"})
+			case "link":
+				o.S2, o.S3 = Pick(r, []string{"xml", "pdf", "portal"}), Pick(r, linkURLs)
+			case "tag":
+				o.S2 = Pick(r, []string{"t2", "t1", "t3"})
+			case "meta":
+				o.S2, o.S3 = Pick(r, []string{"m2", "m1"}), "v"
+			case "notes":
+				o.S2 = "header note"
+			}
 		}
 		p.Ops = append(p.Ops, o)
 	}
@@ -146,15 +162,44 @@ func execC04(x *X) {
 		return
 	}
 	s := &c04slot{kind: d.Kind, sinceCalc: map[string]bool{}}
-	env, err := ParseEnv(d.Env)
-	if err != nil {
-		x.Violate("codec:parse-own-output/"+d.Kind, "cannot parse envelope produced by the system: %v", err)
-		return
+	// The history starts from the SOURCE as a user wrote it (not from an already calculated and
+	// round-tripped envelope): leading edits are applied to the raw input, then the first
+	// calculation happens here, and everything after it must be a fixpoint of that result.
+	ops := x.P.Ops
+	var env *gobl.Envelope
+	if srcDoc := c04sourceDoc(d); srcDoc != nil {
+		lead := 0
+		for lead < len(ops) && ops[lead].K == "edit" {
+			applyDocEdit(srcDoc, ops[lead])
+			lead++
+		}
+		x.Entropy(0)
+		obj := new(schema.Object)
+		var err error
+		if err = json.Unmarshal(srcDoc.Encode(nil), obj); err == nil {
+			if p := safely(func() { env, err = gobl.Envelop(obj) }); p != "" {
+				err = fmt.Errorf("panic: %s", p)
+			}
+		}
+		if err != nil || env == nil {
+			x.Probe("edited-source-does-not-calculate")
+			return // trivial run: the property only speaks about documents that calculate
+		}
+		env.Head.UUID = FixedHeadUUID(int(x.P.Run % 1000))
+		ops = ops[lead:]
+		x.Probe("first-calculation-from-source")
+	} else {
+		var err error
+		env, err = ParseEnv(d.Env)
+		if err != nil {
+			x.Violate("codec:parse-own-output/"+d.Kind, "cannot parse envelope produced by the system: %v", err)
+			return
+		}
 	}
 	s.env = env
 	s.calculated = true
 	startT := time.Now()
-	for i, op := range x.P.Ops {
+	for i, op := range ops {
 		x.Entropy(op.ID)
 		before := Marshal(s.env)
 		note := ""
@@ -227,6 +272,7 @@ func execC04(x *X) {
 			}
 			src := s.durable
 			if op.K == "reencode" {
+				var err error
 				src, err = Reencode(s.durable, op.I, false)
 				if err != nil {
 					x.R.Infra = "reencode: " + err.Error()
@@ -329,6 +375,9 @@ func execC04(x *X) {
 			if err := s.env.Sign(PrivKey(int(op.I))); err != nil {
 				note = "sign-error:" + errKey(err)
 			}
+		case "hdr":
+			hop := Op{K: op.S, S: op.S2, S2: op.S3, I: op.I}
+			note = headerMutate(s.env, hop)
 		case "unsign":
 			s.env.Unsign()
 		case "kfold":
@@ -368,6 +417,21 @@ func execC04(x *X) {
 		}
 	}
 	x.R.SimTimeS = time.Since(startT).Seconds()
+}
+
+// c04sourceDoc returns the source document (not envelope) as the user wrote it.
+func c04sourceDoc(d *Doc) *JV {
+	v, err := ParseJV(d.Src)
+	if err != nil {
+		return nil
+	}
+	if d.IsEnv {
+		if v.Get("doc") == nil {
+			return nil
+		}
+		return v.Get("doc")
+	}
+	return v
 }
 
 func c04readonly(x *X, s *c04slot, what string, before []byte) {
